@@ -287,7 +287,13 @@ func genC03(t *rapid.T) *C03Case {
 	}
 	f, fixed := wrapCtx(ctx, &Stmt{K: "switch", Switch: sw}, sCmd(&Cmd{Name: "pre"}), sCmd(&Cmd{Name: "post"}), sCmd(&Cmd{Name: "in1"}), sCmd(&Cmd{Name: "in2"}))
 	f.Tops = append(consts, f.Tops...)
-	return &C03Case{File: f, Var: "VAR_SW", Values: values, Fixed: fixed,
+	swVar := "VAR_SW"
+	if rapid.IntRange(0, 4).Draw(t, "operandexpr") == 0 {
+		// the operand may be any token sequence: var(VAR_SW + 1) switches on the var named by the whole expression
+		sw.Var = []string{"VAR_SW", "+", "1"}
+		swVar = "VAR_SW + 1"
+	}
+	return &C03Case{File: f, Var: swVar, Values: values, Fixed: fixed,
 		Seeds: []uint64{rapid.Uint64Range(1, 1<<30).Draw(t, "seed"), rapid.Uint64Range(1, 1<<30).Draw(t, "seed2")},
 		Meta:  map[string]string{"ctx": fmt.Sprint(ctx)}}
 }
